@@ -267,6 +267,30 @@ def minimise(case, exe, kind):
         t["streams"][si]["conv"] = [None for _ in t["streams"][si]["conv"]]
         if fails(t):
             c = t
+
+    def with_raw(si, chunks):
+        t = json.loads(json.dumps(c))
+        t["streams"][si]["raw"] = chunks
+        return t
+    for si in range(len(c["streams"])):
+        raw = c["streams"][si]["raw"]
+        if len(raw) > 1:
+            c = with_raw(si, ddmin(raw, lambda ch: fails(with_raw(si, ch)), 30))
+        # shorten the chunks from both ends
+        for ci in range(len(c["streams"][si]["raw"])):
+            for _ in range(12):
+                d, x = c["streams"][si]["raw"][ci]
+                done = True
+                for cand in (x[1:], x[:-1]):
+                    if len(x) > 1:
+                        chunks = [list(ch) for ch in c["streams"][si]["raw"]]
+                        chunks[ci] = [d, cand]
+                        if fails(with_raw(si, chunks)):
+                            c = with_raw(si, chunks)
+                            done = False
+                            break
+                if done:
+                    break
     return c
 
 
@@ -290,7 +314,7 @@ def main(tier, seed, replay=None):
         exe, _ = build_model(PROP, "ExtractC04.v", os.path.join(ROOT, "ocaml/c04"),
                              ["theories/RegexProg.v", "theories/Regex.v", "theories/DataFilter.v"])
     rng = random.Random(seed)
-    ncase = 12000 if tier == "quick" else 60000
+    ncase = 12000 if tier == "quick" else 300000
     cases = []
     cdir = os.path.join(ROOT, "corpus", PROP)
     if replay:
